@@ -60,7 +60,7 @@ class Gen:
 
 
 def gen_case(rng, deep=False):
-    ty = rng.choice(["int", "int", "void", "mo"])
+    ty = rng.choice(["int", "int", "void", "mo", "ref", "ref"])
     next_ = rng.choice([0, 1, 2, 2, 3, 4])
     if deep:
         g = Gen(rng, rng.choice([12, 20, 30]), 2, next_)
@@ -304,6 +304,9 @@ class AsyncSuite(Suite):
                 m = re.match(r"s(\d+)\.(\d+):([cx])(\d+)=(.*)$", e)
                 if m:
                     saws.append((int(m.group(1)), int(m.group(2)), m.group(3), int(m.group(4)), m.group(5), n))
+                if e.endswith("=v:dangling") or e.endswith("=v:corrupt") or "=v:dangling!" in e:
+                    msgs.append("delivery: %s - the bound party received a reference that is not the object named in co_return "
+                                "(identity mismatch)" % e)
                 if e.startswith("hang:"):
                     msgs.append("lost: %s still pending after every promise was resolved or dropped" % e[5:])
                 if e.startswith("-f?"):
@@ -472,11 +475,15 @@ class RaceSuite(Suite):
 
     def gen_cases(self, rng, tier):
         L2, n3, L3x = (9, 2000, 0) if tier == "quick" else (12, 50000, 9)
+        # the enumeration below is complete for the 2-thread shapes: repeated calls on the same suite object (the runner's
+        # deepening streams on a changed tree) only add random many-thread cases instead of repeating it
+        again = getattr(self, "_enumerated", False)
+        self._enumerated = True
         cases = []
         # every schedule prefix of length L2 for every 2-thread shape (each start(promise) performs 1-3 atomic operations
         # before the body, at most 6 in all: every interleaving of two contenders is a prefix of length <= 8 + default rest)
         # (a random tail keeps repeated calls with other PRNG streams from producing identical cases)
-        for sh in T_PAIRS:
+        for sh in ([] if again else T_PAIRS):
             for bits in itertools.product([0, 1], repeat=L2):
                 tail = [rng.randrange(2) for _ in range(rng.choice([0, 0, 2, 4]))]
                 cases.append(t_case(sh, list(bits) + tail, rng.choice(["int", "int", "int", "void", "uptr"])))
@@ -665,8 +672,12 @@ class JoinRaceSuite(RaceSuite):
 
     def gen_cases(self, rng, tier):
         L2, L3, n3 = (9, 6, 1500) if tier == "quick" else (12, 8, 30000)
+        again = getattr(self, "_enumerated", False)   # see RaceSuite.gen_cases
+        self._enumerated = True
+        if again:
+            L3 = 0
         cases = []
-        for sh in T_PAIRS_J:
+        for sh in ([] if again else T_PAIRS_J):
             for bits in itertools.product([0, 1], repeat=L2):
                 tail = [rng.randrange(2) for _ in range(rng.choice([0, 0, 2, 4]))]
                 cases.append(t_case(sh, list(bits) + tail, rng.choice(["int", "int", "void", "uptr"])))
